@@ -460,6 +460,9 @@ func cmdCheck(prop, tier string) int {
 		why := ""
 		if !agree {
 			why = fmt.Sprintf("native run did not complete like the symbolic path (done=%v assert=%q panic=%q assume=%v exhausted=%v hang=%v)", o.Done, o.Assert, o.Panic, o.Assume, o.Exhaust, o.Hang)
+		} else if s.Weak {
+			// the path depends on an uninterpreted function (crc32): the concrete run may legitimately take
+			// another branch; only its outcome (no assertion failure, no panic) is comparable
 		} else if len(o.Obs) != len(s.ObsSeq) {
 			agree, why = false, fmt.Sprintf("observation count differs: native %d engine %d", len(o.Obs), len(s.ObsSeq))
 		} else {
